@@ -121,6 +121,9 @@ var extraRules = map[string][]func(*core.Ctx, *core.Ledger){
 	},
 	"C08": {
 		func(c *core.Ctx, l *core.Ledger) {
+			checkAppendAlias(c, l, "APPEND-ALIAS", []string{"compile", "gen", "ast", "idl", "idl/internal"})
+		},
+		func(c *core.Ctx, l *core.Ledger) {
 			checkIndexGuard(c, l, "INDEX-GUARD", []string{"idl/internal", "idl"})
 		},
 	},
